@@ -32,6 +32,19 @@ def tclass(st, ft):
 
 
 def one(ctx, x, st, ft, method, tag, carrier="arr") -> None:
+    if carrier == "masked-real" and any(v is None for v in x):
+        # history: the unmasked buffer was run just before; now the same numbers with some of them masked by an upstream check
+        raw = np.array([(ctx.rng.choice([0.0, 100.0, -100.0, 1.0]) if v is None else v) for v in x], dtype=float)
+        client.invoke("qartod.spike_test", {"inp": raw.copy(), "suspect_threshold": st, "fail_threshold": ft, "method": method}, check_purity=False)
+        kw = {"inp": np.ma.MaskedArray(raw, mask=[v is None for v in x]), "suspect_threshold": st, "fail_threshold": ft, "method": method}
+        client.expect(ctx, "C09", "qartod.spike_test", kw, lambda: models.spike(x, st, ft, method),
+                      logical={"x": x, "suspect_threshold": st, "fail_threshold": ft, "method": method,
+                               "carrier": "masked array over the numbers of the previous (unmasked) call", "buffer": raw.tolist()},
+                      hist=f"spike.{method}")
+        ctx.count("spike.calls")
+        ctx.count("spike.raw_then_masked_histories")
+        ctx.case(f"{tag}|raw-then-masked|{method}|n{gen.nclass(len(x))}")
+        return
     inp = (gen.arr(x) if carrier == "arr" else list(x) if carrier == "list-none" else gen.nanlist(x) if carrier == "list-nan"
            else gen.carried(ctx.rng, x, poisons=(0.0, 100.0, -100.0, 1.0), p_masked=1.0))
     kw = {"inp": inp, "suspect_threshold": gen.ptype(ctx.rng, st), "fail_threshold": gen.ptype(ctx.rng, ft), "method": method}
@@ -82,7 +95,7 @@ def run(ctx) -> None:
             ctx.count("spike.on_threshold_cases")
         if st in near or ft in near:
             ctx.count("spike.hairline_threshold_cases")
-        one(ctx, x, st, ft, method, "rand", carrier=rng.choice(["arr", "list-none", "list-nan", "masked-finite"]))
+        one(ctx, x, st, ft, method, "rand", carrier=rng.choice(["arr", "list-none", "list-nan", "masked-finite", "masked-real"]))
 
     if ctx.shard == 0:
         # very long series: spikes and missing values placed around powers of two (chunk boundaries of any blocked variant)
